@@ -285,6 +285,24 @@ def oracle(c, r):
                 return
             if n == 2 and dist(lst[0], lst[1]) < 1e-12:
                 yield ("cc-duplicate", "the same intersection point is returned twice for %r, %r" % (c0, c1))
+        # the interval of the first circle that lies inside the second: it ends at the two crossing points and its middle is
+        # inside the other circle (the middle of the rest of the circle is outside)
+        iv = r["interval"]
+        n01 = len(r["i01"])
+        if (iv is None) != (n01 == 0):
+            yield ("cc-interval", "circles %r, %r: %d intersections but intersection_interval is %r" % (c0, c1, n01, iv))
+        elif n01 == 2 and rd + 1e-6 < d < rs - 1e-6:
+            st, an = iv
+            ends = [[c0[0] + c0[2] * math.cos(t), c0[1] + c0[2] * math.sin(t)] for t in (st, st + an)]
+            pair = lambda a, b: max(dist(ends[0], a), dist(ends[1], b))
+            if min(pair(r["i01"][0], r["i01"][1]), pair(r["i01"][1], r["i01"][0])) > 1e-7 * max(1.0, c0[2]):
+                yield ("cc-interval", "circles %r, %r: the interval (start %r, extent %r) ends at %r, the crossing points are %r" % (c0, c1, st, an, ends, r["i01"]))
+            else:
+                mid = [c0[0] + c0[2] * math.cos(st + an / 2), c0[1] + c0[2] * math.sin(st + an / 2)]
+                opp = [c0[0] - c0[2] * math.cos(st + an / 2), c0[1] - c0[2] * math.sin(st + an / 2)]
+                if not (dist(mid, c1) < c1[2] and dist(opp, c1) > c1[2]):
+                    yield ("cc-interval", "circles %r, %r: the middle %r of the interval (start %r, extent %r) is %r from the other centre (radius %r), the opposite point %r is %r from it: the interval is not the part inside the other circle" % (
+                        c0, c1, mid, st, an, dist(mid, c1), c1[2], opp, dist(opp, c1)))
         mins, maxs = r["aabb0"]
         want = ([c0[0] - c0[2], c0[1] - c0[2]], [c0[0] + c0[2], c0[1] + c0[2]])
         if dist(mins, want[0]) > 1e-9 or dist(maxs, want[1]) > 1e-9:
